@@ -33,3 +33,13 @@ func (s *S) M(a, b int) int { return -7000 - s.ID - a - b }
 
 //go:noinline
 func (s S) V(a, b int) int { return -8000 - s.ID - a - b }
+
+// U1 takes an unsigned 64-bit parameter (conditions are usually written as int literals).
+//
+//go:noinline
+func U1(a uint64) int { return -4000 - int(a&0xff) }
+
+// B1 takes an int64 parameter.
+//
+//go:noinline
+func B1(a int64) int { return -5000 - int(a&0xff) }
